@@ -12,6 +12,8 @@ INCRATE = {"C09": ("seed_demo.rs", "src/composer/tests/soundness/seed_demo.rs", 
            "C19r4": ("seed_demo.rs", "src/seed_demo.rs", "seed_demo"),
            "C10r5": ("seed_demo.rs", "src/composer/seed_demo.rs", "seed_demo"),
            "C12r7": ("seed_demo.rs", "src/composer/tests/seed_demo.rs", "seed_demo"),
+           "C13r9": ("seed_demo.rs", "src/composer/tests/soundness/seed_demo.rs", "seed_demo"),
+           "C19r9": ("seed_demo.rs", "src/seed_demo.rs", "seed_demo"),
            "C14r7": ("seed_demo.rs", "src/composer/tests/soundness/seed_demo.rs", "seed_demo"),
            "C19r7": ("seed_demo.rs", "src/seed_demo.rs", "seed_demo"),
            "C09r6": ("seed_demo.rs", "src/composer/tests/soundness/seed_demo.rs", "seed_demo"),
@@ -23,7 +25,7 @@ INCRATE = {"C09": ("seed_demo.rs", "src/composer/tests/soundness/seed_demo.rs", 
            "C09r2": ("seed_demo.rs", "src/composer/tests/soundness/seed_demo.rs", "seed2_c09"),
            "C10r2": ("seed_demo.rs", "src/composer/tests/soundness/seed_demo.rs", "seed_c10"),
            "C20r2": ("seed_demo.rs", "src/commitment_scheme/kzg10/seed_demo.rs", "seed_demo")}
-RELEASE = {"C02r6", "C02r3", "C04r3", "C06r3", "C08r3", "C11r3", "C01r3", "C07r3", "C18r3", "C19r3", "C09r2", "C10r2", "C14r2", "C15r2", "C17r2", "C03r2", "C05r2", "C12r2", "C13r2", "C16r2", "C20r2", "C04", "C05", "C06", "C10", "C11", "C11b", "C12", "C13", "C15", "C16", "C18", "C19"}
+RELEASE = {"C06r9", "C02r6", "C02r3", "C04r3", "C06r3", "C08r3", "C11r3", "C01r3", "C07r3", "C18r3", "C19r3", "C09r2", "C10r2", "C14r2", "C15r2", "C17r2", "C03r2", "C05r2", "C12r2", "C13r2", "C16r2", "C20r2", "C04", "C05", "C06", "C10", "C11", "C11b", "C12", "C13", "C15", "C16", "C18", "C19"}
 THREADS = {"C18": 2, "C19": 1}
 DEMO_OVERRIDE = {"C18r7": "cargo test --release --offline --no-default-features --features alloc --test seed_demo -- --test-threads 4"}
 
